@@ -60,8 +60,33 @@ class Leaf:
         return self.type == "comment"
 
 
-def iter_leaves(root: Node) -> Iterator[Leaf]:
+class LineIndex:
+    """Row / column from byte offsets (tree-sitter's Point getters are not used: in
+    py-tree-sitter 0.26 they hand out borrowed references for values above 256)."""
+
+    __slots__ = ("starts",)
+
+    def __init__(self, data: bytes):
+        starts = [0]
+        find = data.find
+        pos = find(b"\n")
+        while pos != -1:
+            starts.append(pos + 1)
+            pos = find(b"\n", pos + 1)
+        self.starts = starts
+
+    def row(self, offset: int) -> int:
+        import bisect
+        return bisect.bisect_right(self.starts, offset) - 1
+
+    def rowcol(self, offset: int) -> tuple[int, int]:
+        r = self.row(offset)
+        return r, offset - self.starts[r]
+
+
+def iter_leaves(root: Node, data: bytes | None = None) -> Iterator[Leaf]:
     """All leaves in document order (comments included, zero-width skipped)."""
+    index = LineIndex(data) if data is not None else None
     stack = [(root, "", "", False, False, False)]
     # explicit stack, children pushed reversed
     while stack:
@@ -70,11 +95,16 @@ def iter_leaves(root: Node) -> Iterator[Leaf]:
         if cc == 0:
             if node.end_byte == node.start_byte:
                 continue
-            sp = node.start_point
-            ep = node.end_point
+            sb = node.start_byte
+            eb = node.end_byte
+            if index is not None:
+                r0, c0 = index.rowcol(sb)
+                r1 = index.row(eb - 1) if eb > sb else r0
+            else:
+                r0 = c0 = r1 = 0
             yield Leaf(
-                node.type, node.text, node.start_byte, node.end_byte, parent, grand,
-                sp[0], ep[0], sp[1], in_string, in_interp, str_interp, node,
+                node.type, node.text, sb, eb, parent, grand,
+                r0, r1, c0, in_string, in_interp, str_interp, node,
             )
             continue
         t = node.type
@@ -269,7 +299,7 @@ class Reading:
 
 def read(text) -> Reading:
     data, root, err = normalized(text)
-    leaves = list(iter_leaves(root))
+    leaves = list(iter_leaves(root, data))
     tokens = code_tokens_from_leaves(leaves)
     comments: list[CommentRec] = []
     # anchors are counted on the C01-normalised sequence: integers by value do
